@@ -35,9 +35,9 @@ CHECKS = {
         'bounded exhaustive enumeration of token sequences x parser contexts x parser options, byte inputs, import graphs and nesting/flat size families, with a crash/termination/work-counter oracle',
         'DESIGN.md 3/C01',
         'All sequences of <=2 (quick) / <=3 (thorough) token spellings from a 70-symbol alphabet chosen per parser branch (plus depth 3 / 4 over '
-        'smaller cores), each embedded in 12 parser contexts under all parseComments x validate settings, are parsed, serialised, reparsed and '
+        'smaller cores), each embedded in 12 parser contexts (+5 mid-construct contexts for the full alphabet) under all parseComments x validate settings, are parsed, serialised, reparsed and '
         'reserialised by the real entry points under a watchdog; all byte strings <=3 over 11 byte classes behind 9 BOM/@charset prefixes x 4 encoding '
-        'arguments; every @import graph over <=3 virtual sheets x 5 fetcher behaviours; 22 nesting/flat families measured with a deterministic call '
+        'arguments; the complete table of codec names Python registers (as @charset name in text and bytes, as encoding argument); single tokens of up to 20 000 characters; every @import graph over <=3 virtual sheets x 5 fetcher behaviours; 22 nesting/flat families measured with a deterministic call '
         'counter against a degree-4 bound up to n=14/24 (nesting), 64/256 (flat) and once at depth 100. Exhaustive within these bounds.',
         'Trusted: the token alphabet/contexts reach the parser states that matter (vacuity guard: distinct log-message kinds and outcome classes); work is counted in Python calls, not seconds.',
     ),
@@ -45,7 +45,7 @@ CHECKS = {
         'exploration',
         'deviation-bounded exhaustive enumeration: abstract sheets from rule menus x all spellings with <=k decision sites off canonical x all parser option settings, against the projection predicted by the abstract sheet',
         'DESIGN.md 3/C02',
-        'Every single rule form of the menus (14 selectors x 18 declarations, @media incl. nested, @import, @namespace, @page with margin boxes, '
+        'Every single rule form of the menus (18 selectors incl. constructs nested in :not() and namespaced names x 20 declarations, @media incl. nested, @import, @namespace, @page with margin boxes, '
         '@font-face, @charset, unknown at-rules, comments) and every valid ordered sequence of <=2 (quick) / <=3 (thorough) rules over a 12-rule core is '
         'rendered in every spelling that deviates from the canonical one at <=1 (quick) / <=2 (thorough, single rules) decision sites (white-space '
         'variants, comments at grammar gaps, letter case of case-insensitive words, quote style, hex and simple escapes) and parsed under all four '
